@@ -14,11 +14,15 @@ def check(run, ctx) -> None:
     g.run_corr(run, ctx, CORR, "Surface (protoStub, toMock, grouping on real generated method texts)", quick=0.8, thorough=6.0)
     g.run_oracle(run, ctx, known, CORR, "C13 by introspection of the imported package (client vs Protocol vs mock)", CLASSES, quick=0.8, thorough=6.0)
     g.run_corr(run, ctx, "vf.corr.client", "ClientGen (APIClient / APIClientProtocol / MockAPIClient skeletons vs Pog.ClientGen)", quick=0.3, thorough=3.0)
+    # F64 (a tag named like one of APIClient's own members) is repaired: its classes (property-shadowed-by-method, tag-client-unreachable,
+    # property-named-like-instance-attribute, api-client-construction-fails, private-attr-collision, duplicate-property-name,
+    # mock-client-self-argument) map to no finding - a recurrence is a violation.  The `-nonascii` classes (collisions between two tag
+    # clients that only non-ASCII tags produce) are reported as a new finding by the F64 work package, not listed yet ("-unlisted").
     g.run_oracle(run, ctx, g.Informational(known), "vf.corr.client", "client.py / mock_client.py skeletons on the real ClientVisitor / MocksEmitter",
-                 {k: (v if v in ['F23', 'F64'] else '-' + v) for k, v in {"mock-groups-by-first-raw-tag": "F23", "mock-client-props-order": "F23", "mock-client-props-differ": "F23", "mock-tag-case-variants-collide": "F23",
+                 {k: (v if v in ['F23'] or v.startswith("-") else '-' + v) for k, v in {"mock-groups-by-first-raw-tag": "F23", "mock-client-props-order": "F23", "mock-client-props-differ": "F23", "mock-tag-case-variants-collide": "F23",
                   "mock-client-duplicate-argument": "F23", "mock-client-empty-init": "F31", "property-name-not-identifier": "F29", "client-syntax-error": "F29",
-                  "mock-client-syntax-error": "F29", "property-shadowed-by-method": "F64", "tag-client-unreachable": "F64", "property-named-like-instance-attribute": "F64",
-                  "api-client-construction-fails": "F64", "private-attr-collision": "F64", "duplicate-property-name": "F64", "mock-client-self-argument": "F64"}.items()}, quick=0.5, thorough=4.0)
+                  "mock-client-syntax-error": "F29", "duplicate-property-name-nonascii": "-unlisted", "private-attr-collision-nonascii": "-unlisted",
+                  "api-client-construction-fails-nonascii": "-unlisted", "tag-client-unreachable-nonascii": "-unlisted"}.items()}, quick=0.5, thorough=4.0)
     known.report_unreplayed()
 
 
